@@ -1,2 +1,19 @@
-// Package syntax holds the checks of group syntax (see harness/groups.txt).
+// Package syntax holds the checks of group syntax (see harness/groups.txt):
+//
+//	C37  lexing, parsing and checking are total and report in-range positions          (c37.go)
+//	C38  printing a parsed program and re-parsing it yields the same AST               (c38.go, localize.go)
+//	C39  the formatter preserves meaning and comments and is idempotent                (c39.go)
+//
+// Shared machinery:
+//
+//	gen_syn.go   seeded grammar-based generator of parseable Cadence sources (token list with boundary
+//	             constraints; renderers: plain, random whitespace, comments / blank lines / semicolons)
+//	mut_syn.go   mutators (token / byte level, truncation, bracket imbalance, unterminated constructs, huge
+//	             literals, invalid UTF-8) and the 48 deep-nesting families
+//	lex_syn.go   an own lexical scanner (chunks, comments) and the delta minimiser (lines, chunks, bracket
+//	             pairs, windows, characters)
+//	util_syn.go  corpus of the repository's .cdc files, guarded calls, AST JSON stripping / diffing, the
+//	             reflective canonical form used as a fast pre-check of the JSON oracle
+//	localize.go  root-cause localisation of print -> parse defects (smallest failing subtree, repair by
+//	             parenthesising one descendant or by one separator)
 package syntax
